@@ -292,7 +292,7 @@ RECURSIVE DictFold(_, _, _, _, _)
 DictFold(e, vals, i, acc, s) ==
   IF i > Len(e.kvs) THEN Ok(DictV(acc), s)
   ELSE LET key == vals[2 * i]  val == vals[2 * i - 1] IN
-       IF ~IsStr(key) THEN Err("TypeError", e.kvs[i].k.line, s)
+       IF ~IsStr(key) THEN Err("TypeError", e.kvs[i].key.line, s)
        ELSE DictFold(e, vals, i + 1, DictSetKey(acc, key.v, val), s)
 
 Eval(prog, e, s) ==
@@ -366,7 +366,7 @@ Eval(prog, e, s) ==
     [] e.k = "dlit" ->
          \* Dict[k1 => v1, ...]: PINNED evaluation order: last pair first, and within a pair the key before
          \* the value (src/eval.rs DictLiteral pushes value then key for each pair onto the LIFO work list)
-         LET flat == [i \in 1..(2 * Len(e.kvs)) |-> IF i % 2 = 1 THEN e.kvs[(i + 1) \div 2].v ELSE e.kvs[i \div 2].k]
+         LET flat == [i \in 1..(2 * Len(e.kvs)) |-> IF i % 2 = 1 THEN e.kvs[(i + 1) \div 2].val ELSE e.kvs[i \div 2].key]
              r == EvalItemsRev(prog, flat, Len(flat), s, <<>>) IN
          IF r.c # "ok" THEN r ELSE DictFold(e, r.v.v, 1, <<>>, r.s)
     [] e.k = "dot" ->
